@@ -261,6 +261,8 @@ impl GroupCommitQueue {
 
             pending
         };
+        #[cfg(kahflane_turdb_verif)]
+        crate::verif_hooks::sched_point(301);
 
         self.wait_for_completion(&pending)?;
 
@@ -297,6 +299,8 @@ impl GroupCommitQueue {
         let start = Instant::now();
 
         while !pending.is_completed() {
+            #[cfg(kahflane_turdb_verif)]
+            crate::verif_hooks::sched_point(302);
             let mut state = self.state.lock();
 
             if pending.is_completed() {
@@ -346,6 +350,8 @@ impl GroupCommitQueue {
     /// Take all pending commits for flushing
     /// Returns None if no commits are pending or flush is already in progress
     pub fn take_pending(&self) -> Option<Vec<std::sync::Arc<PendingCommit>>> {
+        #[cfg(kahflane_turdb_verif)]
+        crate::verif_hooks::sched_point(304);
         let mut state = self.state.lock();
 
         if state.pending.is_empty() {
@@ -368,12 +374,16 @@ impl GroupCommitQueue {
         }
 
         self.stats.record_flush(batch_size);
+        #[cfg(kahflane_turdb_verif)]
+        crate::verif_hooks::sched_point(305);
 
         {
             let mut state = self.state.lock();
             state.flush_in_progress = false;
         }
         self.flush_complete.notify_all();
+        #[cfg(kahflane_turdb_verif)]
+        crate::verif_hooks::sched_point(306);
     }
 
     /// Mark a batch of commits as failed
